@@ -12,6 +12,7 @@ from .facts import AnchorError
 from .sem import OPTION
 
 PEQ = ("std::cmp::PartialEq", "core::cmp::PartialEq")
+SEARCH = ("model:any", "model:find", "model:position", "model:find_map", "model:all")
 
 OPAQUE_FC = [A.F_CHECK_INTERSECTION, A.CONFLICT + "::add"]
 OPAQUE_IT = [A.SB + "::find_conflict", A.SB + "::remove_ids", A.SB + "::improves_balance"]
@@ -844,7 +845,7 @@ def crossoff(ctx, report, rule, facts, config, want=("own-stage", "all-occurrenc
                 fields, idx, base = Q.table_access(ev, outer[0].source)
                 oc = Q.callee_of(ev, Q.strip(ev, outer[0].source))
                 if (Q.crate_fields(fields) == [(A.SB, "ids")] and base == ("param", 1) and idx == [("param", 2)]
-                        and (oc is None or oc.name in ("index", "index_mut")) and Q.is_full(outer[0]) and not outer[0].stages):
+                        and (oc is None or oc.name in ("index", "index_mut")) and (Q.is_full(outer[0]) or outer[0].kind in SEARCH) and not outer[0].stages):
                     return 2
         return 0
 
@@ -897,7 +898,7 @@ def crossoff(ctx, report, rule, facts, config, want=("own-stage", "all-occurrenc
                 allocc.append("an entry equal to an id of the stage can be kept")
     # the ids of the stage are all looked at
     for L in id_loops:
-        if L.kind.startswith("model:any") or L.kind.startswith("model:find") or L.kind.startswith("model:position"):
+        if L.kind in SEARCH:
             continue
         if not Q.is_full(L):
             allocc.append("the ids of the stage are not all looked at")
